@@ -18,6 +18,21 @@ import (
 
 const verifDir = "/verif"
 
+// harnessDir / evidenceDir: overridable for development runs that must not disturb a running check.
+func harnessDir() string {
+	if d := os.Getenv("GSX_HARNESS"); d != "" {
+		return d
+	}
+	return filepath.Join(verifDir, "harness")
+}
+
+func evidenceDir() string {
+	if d := os.Getenv("GSX_EVIDENCE"); d != "" {
+		return d
+	}
+	return filepath.Join(verifDir, "evidence")
+}
+
 type PropSpec struct {
 	ID        string
 	Technique string
@@ -27,6 +42,8 @@ type PropSpec struct {
 	Quick     func() []eng.Instance
 	Thorough  func() []eng.Instance
 	Race      bool
+	Level     string // evidence level (default model_checking)
+	Explain   string // for level "other"
 }
 
 var registry = map[string]*PropSpec{}
@@ -111,7 +128,7 @@ func checkCmd(args []string) int {
 			insts[i], insts[j] = insts[j], insts[i]
 		}
 	}
-	ov, _, err := eng.HarnessOverlay(filepath.Join(verifDir, "harness"))
+	ov, _, err := eng.HarnessOverlay(harnessDir())
 	if err != nil {
 		fmt.Println("overlay:", err)
 		return 2
@@ -191,9 +208,9 @@ func checkCmd(args []string) int {
 				plain = append(plain, j)
 			}
 		}
-		nouts, nativeLog, nerr = eng.RunNative(L, filepath.Join(verifDir, "harness"), plain, false)
+		nouts, nativeLog, nerr = eng.RunNative(L, harnessDir(), plain, false)
 		for _, j := range racy {
-			o2, l2, e2 := eng.RunNative(L, filepath.Join(verifDir, "harness"), []*eng.ReplayJob{j}, true)
+			o2, l2, e2 := eng.RunNative(L, harnessDir(), []*eng.ReplayJob{j}, true)
 			nativeLog += l2
 			if e2 != nil && nerr == nil {
 				nerr = e2
@@ -395,12 +412,13 @@ func checkCmd(args []string) int {
 		"property_id": id,
 		"tier":        *tier,
 		"seed":        seed,
-		"level":       "model_checking",
+		"level":       levelOf(spec),
 		"wall_s":      time.Since(t0).Seconds(),
 		"violations":  violations,
 		"assumptions": asl,
 		"coverage": map[string]interface{}{
 			"technique":                     spec.Technique,
+			"explanation":                   spec.Explain,
 			"evaluations":                   queries,
 			"distinct_nontrivial":           nontrivial,
 			"rule":                          "one evaluation = one SMT query discharged; an instance is non-trivial when its reachability witness is satisfiable and its formula has free input variables",
@@ -424,9 +442,9 @@ func checkCmd(args []string) int {
 			"exit":                          exit,
 		},
 	}
-	os.MkdirAll(filepath.Join(verifDir, "evidence"), 0o755)
+	os.MkdirAll(evidenceDir(), 0o755)
 	eb, _ := json.MarshalIndent(ev, "", " ")
-	os.WriteFile(filepath.Join(verifDir, "evidence", id+".json"), eb, 0o644)
+	os.WriteFile(filepath.Join(evidenceDir(), id+".json"), eb, 0o644)
 	fmt.Printf("%s %s: %d instances, %d queries (unsat %d, sat %d, unknown %d), solver %.1fs, wall %.1fs, validated %d, violations %d, known %d, inconclusive %d -> exit %d\n",
 		id, *tier, len(insts), queries, unsat, sat, unknown, solverS, time.Since(t0).Seconds(), validated, violations, knownHits, inconclusive, exit)
 	if *verbose && nativeLog != "" {
@@ -489,4 +507,12 @@ func matchKnown(k KnownFindings, prop, inst, msg string) *KnownEntry {
 		}
 	}
 	return nil
+}
+
+
+func levelOf(s *PropSpec) string {
+	if s.Level != "" {
+		return s.Level
+	}
+	return "model_checking"
 }
